@@ -170,6 +170,7 @@ def focused(tier):
         out.append(cfg("%s cct raises priority" % opt, fam, [node(c=1, preempt=opt)],
                        {"A": klass([[0.5, 1.0]], [[3.0, 2.0]], prio=1, cct={"B": [0.5, 1.5]}), "B": klass([[1.0, 2.0]], [[0.5, 1.0]], prio=0)},
                        K=2, T=24.0, features=["preempt_prio", "cct", opt]))
+    out += ties_and_disciplines(tier)
     for c in (1, 2):
         out.append(cfg("reroute c=%d" % c, fam, [node(c=c, preempt="reroute"), node(c=1)],
                        {"A": klass([[0.5, 1.0], None], [[3.0, 2.0], [1.0]], prio=1, route=network(direct(-1, reroute_to=2), leave())),
@@ -179,6 +180,21 @@ def focused(tier):
                    {"A": klass([[0.5, 1.0], None], [[3.0, 2.0], [1.0]], prio=1, route=matrix([[0.0, 0.5], [0.0, 0.0]])),
                     "B": klass([[1.0, 0.75], None], [[0.5, 1.0], [1.0]], prio=0, route=matrix([[0.0, 0.5], [0.0, 0.0]]))},
                    K=2, T=24.0, features=["preempt_prio", "reroute"]))
+    return out
+
+
+def ties_and_disciplines(tier, fam="F-preempt"):
+    """pre-emption landing exactly on the victim's end of service (remaining time 0), and disciplines under which the
+    start order of equal-priority customers differs from their arrival order"""
+    out = []
+    for opt in ("resume", "restart", "resample"):
+        out.append(cfg("%s tie with end of service" % opt, fam, [node(c=1, preempt=opt)],
+                       {"A": klass([{"values": [0.5], "budget": 2 if tier != "quick" else 1}], [[2.0, 1.0]], prio=1),
+                        "B": klass([{"values": [2.5, 1.5], "budget": 1}], [[0.5, 1.0]], prio=0)}, K=1, T=20.0, features=["preempt_prio", opt, "ties"]))
+        for disc in ("LIFO", "SIRO"):
+            out.append(cfg("%s c=2 %s" % (opt, disc), fam, [node(c=2, preempt=opt, discipline=disc)],
+                           {"A": klass([[0.5, 0.25]], [[3.0, 5.0]], prio=1), "B": klass([{"values": [4.0, 6.0], "budget": 1}], [[0.5, 1.0]], prio=0)},
+                           K=4 if tier == "quick" else 5, T=24.0, D=5 if tier == "quick" else 8, features=["preempt_prio", opt, disc]))
     return out
 
 
